@@ -1069,3 +1069,402 @@ Proof.
   - rewrite put_bit by auto. rewrite (IH Hl). reflexivity.
   - apply IH; auto.
 Qed.
+
+
+(* ====================================================================== *)
+(* rtlil.emit_assignment_list: the reconstructed nested switches compute the AssignmentList *)
+(* ====================================================================== *)
+Lemma cnd_eqb_eq a b : cnd_eqb a b = true -> a = b.
+Proof.
+  destruct a as [|k i], b as [|k' i']; simpl; intros H; try discriminate; auto.
+  apply andb_true_iff in H. destruct H as [H1 H2]. apply Nat.eqb_eq in H1, H2. subst. reflexivity.
+Qed.
+
+Lemma cnd_eqb_refl a : cnd_eqb a a = true.
+Proof. destruct a; simpl; auto. rewrite !Nat.eqb_refl. reflexivity. Qed.
+
+(* Match cells are created after the cell that enables them *)
+Definition wf_tab (tab : mtab) : Prop :=
+  forall k mc, nth_error tab k = Some mc ->
+  match mc_en mc with CTrue => True | CM k' _ => (k' < k)%nat end.
+
+Definition cdepth (c : cnd) : nat := match c with CTrue => 0%nat | CM k _ => S k end.
+
+Lemma cnd_val_fuel rho tab : wf_tab tab -> forall f1 f2 c, (cdepth c <= f1)%nat -> (cdepth c <= f2)%nat ->
+  cnd_val f1 rho tab c = cnd_val f2 rho tab c.
+Proof.
+  intros Hwf. induction f1 as [|f1 IH]; intros f2 c H1 H2.
+  - destruct c; simpl in *; [destruct f2; reflexivity|lia].
+  - destruct c as [|k b]; [destruct f2; reflexivity|].
+    destruct f2 as [|f2]; [simpl in H2; lia|]. simpl.
+    destruct (nth_error tab k) as [mc|] eqn:E; [|reflexivity].
+    f_equal. apply IH; pose proof (Hwf k mc E) as Hk; destruct (mc_en mc); simpl in *; lia.
+Qed.
+
+Lemma cnd_val_S f rho tab k b :
+  cnd_val (S f) rho tab (CM k b) =
+  match nth_error tab k with
+  | None => false
+  | Some mc => cnd_val f rho tab (mc_en mc) && first_match (nval rho (mc_sel mc)) (mc_pats mc) b
+  end.
+Proof. reflexivity. Qed.
+
+(* a Match output: enabled, its pattern set matches, no earlier one does *)
+Lemma cval_unfold rho tab k mc b : wf_tab tab -> nth_error tab k = Some mc ->
+  cval rho tab (CM k b) = cval rho tab (mc_en mc) && first_match (nval rho (mc_sel mc)) (mc_pats mc) b.
+Proof.
+  intros Hwf E. unfold cval. rewrite cnd_val_S, E. f_equal.
+  assert (k < length tab)%nat by (apply nth_error_Some; congruence).
+  apply cnd_val_fuel; auto; pose proof (Hwf k mc E) as Hk; destruct (mc_en mc); simpl in *; lia.
+Qed.
+
+Lemma climb_found tab cond : forall fuel c last k, climb fuel tab cond c last = Found k ->
+  (cnd_eqb c cond = true /\ last = Some k) \/
+  (exists mc, nth_error tab k = Some mc /\ mc_en mc = cond).
+Proof.
+  induction fuel as [|f IH]; intros c last k H; [discriminate|]. cbn [climb] in H.
+  destruct (cnd_eqb c cond) eqn:E.
+  - destruct last; [|discriminate]. injection H as <-. left. auto.
+  - destruct c as [|k0 b0]; [discriminate|]. destruct (nth_error tab k0) as [mc0|] eqn:E0; [|discriminate].
+    destruct (IH _ _ _ H) as [[H1 H2]|H1]; [|right; exact H1].
+    injection H2 as <-. right. exists mc0. split; auto. apply cnd_eqb_eq; auto.
+Qed.
+
+Lemma pat_all_none_sem p t : forallb (fun b : option bool => match b with None => true | Some _ => false end) p = true ->
+  pat_sem p t = true.
+Proof.
+  induction p as [|b r IH]; [reflexivity|]. simpl. destruct b; [discriminate|]. intros H. apply IH; auto.
+Qed.
+
+Lemma is_default_match n pl sel : is_default n pl = true -> pl_match sel pl = true.
+Proof.
+  destruct pl as [|p [|q r]]; simpl; try discriminate. intros H. apply andb_true_iff in H. destruct H as [_ H].
+  unfold pl_match. simpl. rewrite (pat_all_none_sem p sel H). reflexivity.
+Qed.
+
+Lemma ptree_atree_PS rho sel cs :
+  ptree_atree rho (PS sel cs) =
+  TSwitch (nlen sel) (nval rho sel) (map (fun c => (fst c, map (ptree_atree rho) (snd c))) cs).
+Proof.
+  reflexivity.
+Qed.
+
+Lemma nir_run_app cv rho w l1 l2 acc : nir_run cv rho w (l1 ++ l2) acc = nir_run cv rho w l2 (nir_run cv rho w l1 acc).
+Proof. unfold nir_run. apply fold_left_app. Qed.
+
+Lemma nir_run_cons cv rho w a l acc : nir_run cv rho w (a :: l) acc = nir_run cv rho w l (nir_step cv rho w acc a).
+Proof. reflexivity. Qed.
+
+Section AssignmentListSound.
+  Variables (rho : valuation) (tab : mtab) (w : Z) (cv : cnd -> bool).
+  Hypothesis cv_true : cv CTrue = true.
+  Hypothesis cv_match : forall k mc b, nth_error tab k = Some mc ->
+    cv (CM k b) = cv (mc_en mc) && first_match (nval rho (mc_sel mc)) (mc_pats mc) b.
+
+  Let X (ts : list ptree) (acc : Z) : Z := run_trees w (map (ptree_atree rho) ts) acc.
+  Let G (sel : Z) (cs : list (list pattern * list ptree)) (acc : Z) : Z :=
+    go_cases w sel (map (fun c => (fst c, map (ptree_atree rho) (snd c))) cs) acc.
+  Let N := nir_run cv rho w.
+
+  (* what one invocation consumed, and what it means *)
+  Definition as_ok (cond : cnd) (l : list nassign) (ts : list ptree) (rest : list nassign) : Prop :=
+    exists used, l = used ++ rest /\
+      (cv cond = true -> forall acc, X ts acc = N used acc) /\
+      (cv cond = false -> forall acc, N used acc = acc).
+  Definition cases_ok (sel : Z) (g : bool) (l : list nassign) (cs : list (list pattern * list ptree))
+                      (rest : list nassign) : Prop :=
+    exists used, l = used ++ rest /\
+      (g = true -> forall acc, G sel cs acc = N used acc) /\
+      (g = false -> forall acc, N used acc = acc).
+
+  Lemma emit_sound : forall fuel,
+    (forall cond l ts rest, emit_as fuel tab cond l = (ts, rest) -> as_ok cond l ts rest) /\
+    (forall k mc pats bit l cs rest g, nth_error tab k = Some mc ->
+       (forall j, cv (CM k (bit + j)) = g && first_match (nval rho (mc_sel mc)) pats j) ->
+       emit_cases fuel tab k (length (mc_sel mc)) pats bit l = (cs, rest) ->
+       cases_ok (nval rho (mc_sel mc)) g l cs rest).
+  Proof.
+    induction fuel as [|f [IHA IHB]].
+    - split.
+      + intros cond l ts rest H. injection H as <- <-. exists []. repeat split; auto.
+      + intros k mc pats bit l cs rest g _ _ H. injection H as <- <-. exists []. repeat split; auto.
+    - split.
+      + (* emit_assignments *)
+        intros cond l ts rest H. cbn [emit_as] in H. destruct l as [|a r].
+        { injection H as <- <-. exists []. repeat split; auto. }
+        destruct (cnd_eqb (na_cond a) cond) eqn:Ec.
+        * destruct (emit_as f tab cond r) as [ts' rest'] eqn:E. injection H as <- <-.
+          destruct (IHA _ _ _ _ E) as [used [Hl [Ht Hf]]]. apply cnd_eqb_eq in Ec.
+          exists (a :: used). split; [rewrite Hl; reflexivity|]. split.
+          -- intros Hc acc. unfold X. cbn [map run_trees ptree_atree exec_atree]. fold (X ts' (put w acc (na_start a) (nlen (na_val a)) (nval rho (na_val a)))).
+             rewrite (Ht Hc). unfold N. rewrite nir_run_cons. unfold nir_step. rewrite Ec, Hc. reflexivity.
+          -- intros Hc acc. unfold N. rewrite nir_run_cons. unfold nir_step. rewrite Ec, Hc. apply (Hf Hc).
+        * destruct (climb (S (S (length tab))) tab cond (na_cond a) None) as [k| |] eqn:Ek;
+            try (injection H as <- <-; exists []; repeat split; auto).
+          destruct (climb_found _ _ _ _ _ _ Ek) as [[_ Hn]|[mc [Em Hen]]]; [discriminate|].
+          rewrite Em in H.
+          destruct (emit_cases f tab k (length (mc_sel mc)) (mc_pats mc) 0 (a :: r)) as [cases rest1] eqn:E1.
+          destruct (emit_as f tab cond rest1) as [ts' rest'] eqn:E2. injection H as <- <-.
+          assert (Hg : forall j, cv (CM k (0 + j)) = cv cond && first_match (nval rho (mc_sel mc)) (mc_pats mc) j).
+          { intros j. cbn [Nat.add]. rewrite (cv_match k mc j Em), Hen. reflexivity. }
+          destruct (IHB _ _ _ _ _ _ _ _ Em Hg E1) as [used1 [Hl1 [Ht1 Hf1]]].
+          destruct (IHA _ _ _ _ E2) as [used2 [Hl2 [Ht2 Hf2]]].
+          exists (used1 ++ used2). split; [rewrite Hl1, Hl2, app_assoc; reflexivity|]. split.
+          -- intros Hc acc. unfold X. cbn [map run_trees]. rewrite ptree_atree_PS, exec_switch.
+             fold (G (nval rho (mc_sel mc)) cases acc). fold (X ts' (G (nval rho (mc_sel mc)) cases acc)).
+             rewrite (Ht1 Hc), (Ht2 Hc). unfold N. rewrite nir_run_app. reflexivity.
+          -- intros Hc acc. unfold N. rewrite nir_run_app. fold N. rewrite (Hf1 Hc), (Hf2 Hc). reflexivity.
+      + (* the cases of one switch *)
+        intros k mc pats bit l cs rest g Em Hg H. cbn [emit_cases] in H. destruct pats as [|pl ps].
+        { injection H as <- <-. exists []. repeat split; auto. }
+        destruct (emit_as f tab (CM k bit) l) as [body rest1] eqn:E1.
+        destruct (emit_cases f tab k (length (mc_sel mc)) ps (S bit) rest1) as [cs' rest2] eqn:E2.
+        set (sel := nval rho (mc_sel mc)) in *.
+        assert (Hbit : cv (CM k bit) = g && pl_match sel pl).
+        { specialize (Hg 0%nat). rewrite Nat.add_0_r in Hg. exact Hg. }
+        assert (Hg' : forall j, cv (CM k (S bit + j)) = (g && negb (pl_match sel pl)) && first_match sel ps j).
+        { intros j. specialize (Hg (S j)). replace (bit + S j)%nat with (S bit + j)%nat in Hg by lia.
+          rewrite Hg. cbn [first_match]. rewrite andb_assoc. reflexivity. }
+        destruct (IHA _ _ _ _ E1) as [used1 [Hl1 [Ht1 Hf1]]].
+        destruct (IHB _ _ _ _ _ _ _ _ Em Hg' E2) as [used2 [Hl2 [Ht2 Hf2]]].
+        assert (Hl : l = (used1 ++ used2) ++ rest2) by (rewrite Hl1, Hl2, app_assoc; reflexivity).
+        destruct (is_default (length (mc_sel mc)) pl) eqn:Ed.
+        * injection H as <- <-. pose proof (is_default_match _ _ sel Ed) as Hm. rewrite Hm in *.
+          exists (used1 ++ used2). split; [exact Hl|]. split.
+          -- intros Hgt acc. subst g. unfold G. cbn [map go_cases fst snd case_hit]. fold (X body acc).
+             rewrite (Ht1 Hbit). unfold N. rewrite nir_run_app. fold N. rewrite (Hf2 eq_refl). reflexivity.
+          -- intros Hgf acc. subst g. unfold N. rewrite nir_run_app. fold N. rewrite (Hf1 Hbit), (Hf2 eq_refl). reflexivity.
+        * destruct pl as [|p0 pr].
+          -- (* empty pattern list: the case is not added; it never matches *)
+             injection H as <- <-. change (pl_match sel []) with false in *. rewrite andb_false_r in Hbit.
+             rewrite andb_true_r in Hg'. exists (used1 ++ used2). split; [exact Hl|]. split.
+             ++ intros Hgt acc. unfold N. rewrite nir_run_app. fold N. rewrite (Hf1 Hbit). apply Ht2.
+                rewrite Hgt. reflexivity.
+             ++ intros Hgf acc. unfold N. rewrite nir_run_app. fold N. rewrite (Hf1 Hbit). apply Hf2.
+                rewrite Hgf. reflexivity.
+          -- injection H as <- <-. exists (used1 ++ used2). split; [exact Hl|]. split.
+             ++ intros Hgt acc. subst g. unfold G. cbn [map go_cases fst snd]. unfold case_hit.
+                fold (pl_match sel (p0 :: pr)). cbn [andb] in *. destruct (pl_match sel (p0 :: pr)) eqn:Em2.
+                ** fold (X body acc). rewrite (Ht1 Hbit). unfold N. rewrite nir_run_app. fold N.
+                   rewrite (Hf2 eq_refl). reflexivity.
+                ** fold (G sel cs' acc). rewrite (Ht2 eq_refl). unfold N. rewrite nir_run_app. fold N.
+                   rewrite (Hf1 Hbit). reflexivity.
+             ++ intros Hgf acc. subst g. cbn [andb] in *. unfold N. rewrite nir_run_app. fold N.
+                rewrite (Hf1 Hbit), (Hf2 eq_refl). reflexivity.
+  Qed.
+
+  Theorem emit_assignment_list_sound default l proc : emit_assignment_list tab default l = Some proc ->
+    forall acc, exec_ptrees rho w proc acc =
+                N l (put w acc 0 (nlen default) (nval rho default)).
+  Proof.
+    unfold emit_assignment_list. destruct (emit_as (al_fuel tab l) tab CTrue l) as [ts rest] eqn:E.
+    destruct rest; [|discriminate]. intros H acc. injection H as <-.
+    destruct (proj1 (emit_sound _) _ _ _ _ E) as [used [Hl [Ht _]]]. rewrite app_nil_r in Hl. subst used.
+    unfold exec_ptrees. rewrite exec_atrees_run. cbn [map run_trees ptree_atree exec_atree].
+    apply (Ht cv_true).
+  Qed.
+End AssignmentListSound.
+
+
+(* ====================================================================== *)
+(* windows: _nir.Assignment (start, width) and NetlistDriver.emit_value      *)
+(* ====================================================================== *)
+Lemma firstn_skipn_nval rho v (k : nat) : (k <= length v)%nat ->
+  nval rho v = nval rho (firstn k v) + 2 ^ Z.of_nat k * nval rho (skipn k v).
+Proof.
+  intros H. rewrite <- (firstn_skipn k v) at 1. rewrite nval_app. f_equal. f_equal. f_equal.
+  unfold nlen. rewrite firstn_length. lia.
+Qed.
+
+Lemma nlen_firstn v (k : nat) : (k <= length v)%nat -> nlen (firstn k v) = Z.of_nat k.
+Proof. intros. unfold nlen. rewrite firstn_length. lia. Qed.
+Lemma nlen_skipn v (k : nat) : nlen (skipn k v) = nlen v - Z.of_nat (Nat.min k (length v)).
+Proof. unfold nlen. rewrite skipn_length. lia. Qed.
+
+Lemma nval_firstn rho v (k : nat) : (k <= length v)%nat -> nval rho (firstn k v) = mask (Z.of_nat k) (nval rho v).
+Proof.
+  intros H. pose proof (nval_range rho (firstn k v)) as Hr. rewrite nlen_firstn in Hr by auto.
+  rewrite (firstn_skipn_nval rho v k H). unfold mask.
+  rewrite Z.mul_comm, Z_mod_plus_full. symmetry. apply Z.mod_small. exact Hr.
+Qed.
+
+Lemma nval_skipn rho v (k : nat) : (k <= length v)%nat -> nval rho (skipn k v) = nval rho v / 2 ^ Z.of_nat k.
+Proof.
+  intros H. pose proof (nval_range rho (firstn k v)) as Hr. rewrite nlen_firstn in Hr by auto.
+  rewrite (firstn_skipn_nval rho v k H). pose proof (pow2_pos (Z.of_nat k) ltac:(lia)).
+  rewrite Z.mul_comm, Z.div_add by lia. rewrite Z.div_small by exact Hr. lia.
+Qed.
+
+Lemma testbit_small_high x n i : 0 <= n -> 0 <= x < 2 ^ n -> n <= i -> Z.testbit x i = false.
+Proof.
+  intros Hn Hx Hi. rewrite <- (mask_small n x Hx). rewrite testbit_mask by auto.
+  destruct (i <? n) eqn:E; [lia|reflexivity].
+Qed.
+
+Lemma testbit_bits_at F off w i : 0 <= off -> 0 <= w -> 0 <= i ->
+  Z.testbit (bits_at F off w) i = (i <? w) && Z.testbit F (i + off).
+Proof.
+  intros. unfold bits_at. fold (mask w (F / 2 ^ off)). rewrite testbit_mask by auto.
+  rewrite testbit_div_pow2 by auto. reflexivity.
+Qed.
+
+(* ONLY THE ADDRESSED BITS CHANGE: an executed assignment (start, width) replaces exactly the bits
+   start <= i < start + width that exist in the target; every other bit keeps its value *)
+Theorem assignment_window w old s vw v i : 0 <= w -> 0 <= s -> 0 <= vw -> 0 <= i ->
+  Z.testbit (put w old s vw v) i =
+  if (s <=? i) && (i <? s + vw) && (i <? w) then Z.testbit v (i - s) else Z.testbit old i.
+Proof. apply put_bit. Qed.
+
+Theorem assignment_frame w old s vw v i : 0 <= w -> 0 <= s -> 0 <= vw -> 0 <= i ->
+  (i < s \/ s + vw <= i \/ w <= i) -> Z.testbit (put w old s vw v) i = Z.testbit old i.
+Proof.
+  intros Hw Hs Hvw Hi Ho. rewrite put_bit by auto.
+  destruct ((s <=? i) && (i <? s + vw) && (i <? w)) eqn:E; [lia|reflexivity].
+Qed.
+
+(* the clipped assignment of emit_value *)
+Definition clip (cs ce : Z) (a : nassign) : Z * list net :=
+  let '(start, value) :=
+    if na_start a <? cs then (0, skipn (Z.to_nat (cs - na_start a)) (na_val a))
+    else (na_start a - cs, na_val a) in
+  (start, if ce - cs <? start + nlen value then firstn (Z.to_nat (ce - cs - start)) value else value).
+
+Lemma clip_spec rho cs ce a : 0 <= cs <= ce -> 0 <= na_start a -> na_start a < ce -> cs < na_start a + nlen (na_val a) ->
+  let s := na_start a in let vl := nlen (na_val a) in
+  let s' := Z.max (s - cs) 0 in let k := Z.max (cs - s) 0 in
+  let vl' := Z.min (vl - k) (ce - cs - s') in
+  fst (clip cs ce a) = s' /\ nlen (snd (clip cs ce a)) = vl' /\
+  nval rho (snd (clip cs ce a)) = mask vl' (nval rho (na_val a) / 2 ^ k) /\ 0 <= vl'.
+Proof.
+  intros Hc Hs Hlt Hgt. cbv zeta. unfold clip.
+  pose proof (nlen_nonneg (na_val a)) as Hvl.
+  set (s := na_start a) in *. set (vl := nlen (na_val a)) in *.
+  set (s' := Z.max (s - cs) 0). set (k := Z.max (cs - s) 0). set (vl' := Z.min (vl - k) (ce - cs - s')).
+  assert (Hlen : Z.of_nat (length (na_val a)) = vl) by reflexivity.
+  destruct (s <? cs) eqn:E.
+  - set (v1 := skipn (Z.to_nat (cs - s)) (na_val a)).
+    assert (Hk : (Z.to_nat (cs - s) <= length (na_val a))%nat) by lia.
+    assert (Hn1 : nlen v1 = vl - (cs - s)) by (unfold v1; rewrite nlen_skipn; lia).
+    assert (Hv1 : nval rho v1 = nval rho (na_val a) / 2 ^ (cs - s)).
+    { unfold v1. rewrite nval_skipn by auto. rewrite Z2Nat.id by lia. reflexivity. }
+    assert (Hs' : s' = 0) by lia. assert (Hkk : k = cs - s) by lia.
+    cbn [fst snd]. destruct (ce - cs <? 0 + nlen v1) eqn:E2.
+    + assert (Hlen1 : Z.of_nat (length v1) = nlen v1) by reflexivity.
+      assert (Hk2 : (Z.to_nat (ce - cs - 0) <= length v1)%nat) by lia.
+      rewrite nlen_firstn, nval_firstn by auto. rewrite Z2Nat.id by lia. rewrite Hv1, Hkk.
+      replace vl' with (ce - cs - 0) by lia. repeat split; lia.
+    + rewrite Hn1, Hv1, Hkk. replace vl' with (vl - (cs - s)) by lia. repeat split; try lia.
+      symmetry. apply mask_small. rewrite <- Hv1, <- Hn1. apply nval_range.
+  - assert (Hs' : s' = s - cs) by lia. assert (Hkk : k = 0) by lia.
+    cbn [fst snd]. fold vl. rewrite Hkk, Z.pow_0_r, Z.div_1_r.
+    destruct (ce - cs <? s - cs + vl) eqn:E2.
+    + assert (Hk2 : (Z.to_nat (ce - cs - (s - cs)) <= length (na_val a))%nat) by lia.
+      rewrite nlen_firstn, nval_firstn by auto. rewrite Z2Nat.id by lia.
+      replace vl' with (ce - cs - (s - cs)) by lia. repeat split; lia.
+    + replace vl' with vl by lia. repeat split; try lia. symmetry. apply mask_small. apply nval_range.
+Qed.
+
+(* one assignment seen from the chunk [cs, ce) of a W-bit signal *)
+Lemma clip_step rho cs ce W a F S (c : bool) : 0 <= cs <= ce -> ce <= W -> 0 <= na_start a ->
+  na_start a < ce -> cs < na_start a + nlen (na_val a) ->
+  S = bits_at F cs (ce - cs) ->
+  (if c then put (ce - cs) S (fst (clip cs ce a)) (nlen (snd (clip cs ce a))) (nval rho (snd (clip cs ce a))) else S) =
+  bits_at (if c then put W F (na_start a) (nlen (na_val a)) (nval rho (na_val a)) else F) cs (ce - cs).
+Proof.
+  intros Hc HW Hs Hlt Hgt HS. destruct c; [|exact HS].
+  destruct (clip_spec rho cs ce a Hc Hs Hlt Hgt) as [H1 [H2 [H3 H4]]]. rewrite H1, H2, H3. clear H1 H2 H3.
+  set (s := na_start a) in *. set (vl := nlen (na_val a)) in *. set (V := nval rho (na_val a)) in *.
+  pose proof (nlen_nonneg (na_val a)) as Hvl. fold vl in Hvl.
+  remember (Z.max (s - cs) 0) as s' eqn:Hs'. remember (Z.max (cs - s) 0) as k eqn:Hk.
+  remember (Z.min (vl - k) (ce - cs - s')) as vl' eqn:Hvl'. remember (ce - cs) as L eqn:HL.
+  apply Z.bits_inj'. intros i Hi.
+  rewrite testbit_bits_at by lia. rewrite !put_bit by lia. subst S. rewrite testbit_bits_at by lia.
+  destruct (i <? L) eqn:EL.
+  - cbn [andb]. rewrite !andb_true_r.
+    destruct ((s' <=? i) && (i <? s' + vl')) eqn:E1; destruct ((s <=? i + cs) && (i + cs <? s + vl) && (i + cs <? W)) eqn:E2; try lia.
+    rewrite testbit_mask by lia. rewrite testbit_div_pow2 by lia.
+    replace (i - s' <? vl') with true by lia. cbn [andb]. f_equal. lia.
+  - rewrite !andb_false_r. reflexivity.
+Qed.
+
+Definition starts_ok (l : list nassign) : Prop := Forall (fun a => 0 <= na_start a) l.
+
+Lemma emit_value_loop_correct cv rho cs ce W : 0 <= cs <= ce -> ce <= W -> cv CTrue = true ->
+  forall l default kept F, starts_ok l -> nlen default = ce - cs ->
+  nir_run cv rho (ce - cs) kept (nval rho default) = bits_at F cs (ce - cs) ->
+  let '(d', k') := emit_value_loop cs ce l default kept in
+  nir_run cv rho (ce - cs) k' (nval rho d') = bits_at (nir_run cv rho W l F) cs (ce - cs) /\ nlen d' = ce - cs.
+Proof.
+  intros Hc HW Hcv. induction l as [|a r IH]; intros default kept F Hst Hd HS.
+  - cbn [emit_value_loop nir_run fold_left]. split; auto.
+  - inversion Hst as [|? ? Ha Hr]; subst. cbn [emit_value_loop]. rewrite nir_run_cons.
+    pose proof (nlen_nonneg (na_val a)) as Hvl.
+    assert (Hskip : (ce <=? na_start a) = true \/ (na_start a + nlen (na_val a) <=? cs) = true ->
+                    bits_at (nir_step cv rho W F a) cs (ce - cs) = bits_at F cs (ce - cs)).
+    { intros Hor. unfold nir_step. destruct (cv (na_cond a)); [|reflexivity].
+      apply Z.bits_inj'. intros i Hi. rewrite !testbit_bits_at by lia. destruct (i <? ce - cs) eqn:E; [|reflexivity].
+      cbn [andb]. apply assignment_frame; lia. }
+    destruct (ce <=? na_start a) eqn:E1.
+    { apply IH; auto. rewrite Hskip by auto. exact HS. }
+    destruct (na_start a + nlen (na_val a) <=? cs) eqn:E2.
+    { apply IH; auto. rewrite Hskip by auto. exact HS. }
+    destruct (cnd_eqb (na_cond a) CTrue && (na_start a =? cs) && (nlen (na_val a) =? ce - cs)
+              && match kept with [] => true | _ :: _ => false end) eqn:E3.
+    + (* folded into the default: nothing was kept before, so nothing can be overridden wrongly *)
+      apply andb_true_iff in E3. destruct E3 as [E3 Ek]. apply andb_true_iff in E3. destruct E3 as [E3 El].
+      apply andb_true_iff in E3. destruct E3 as [Ec Es]. apply cnd_eqb_eq in Ec.
+      destruct kept; [|discriminate]. apply IH; auto; [lia|].
+      cbn [nir_run fold_left]. unfold nir_step. rewrite Ec, Hcv.
+      apply Z.bits_inj'. intros i Hi. rewrite testbit_bits_at by lia. rewrite put_bit by lia.
+      destruct (i <? ce - cs) eqn:E.
+      * replace ((na_start a <=? i + cs) && (i + cs <? na_start a + nlen (na_val a)) && (i + cs <? W)) with true by lia.
+        cbn [andb]. f_equal. lia.
+      * cbn [andb]. apply (testbit_small_high _ (nlen (na_val a))); [lia|apply nval_range|lia].
+    + pose proof (clip_step rho cs ce W a F _ (cv (na_cond a)) Hc HW Ha ltac:(lia) ltac:(lia) HS) as Hstep.
+      unfold clip in Hstep.
+      destruct (na_start a <? cs) eqn:E4; cbn [fst snd] in Hstep; cbv beta iota zeta;
+        (apply IH; auto; rewrite nir_run_app; cbn [nir_run fold_left]; unfold nir_step;
+         cbn [na_cond na_start na_val]; exact Hstep).
+Qed.
+
+Lemma nslice_spec rho v lo hi : 0 <= lo <= hi -> hi <= nlen v ->
+  nlen (nslice v lo hi) = hi - lo /\ nval rho (nslice v lo hi) = bits_at (nval rho v) lo (hi - lo).
+Proof.
+  intros H1 H2. unfold nslice. unfold nlen in H2.
+  assert (Hk : (Z.to_nat lo <= length v)%nat) by lia.
+  assert (Hk2 : (Z.to_nat (hi - lo) <= length (skipn (Z.to_nat lo) v))%nat) by (rewrite skipn_length; lia).
+  split.
+  - rewrite nlen_firstn by auto. lia.
+  - rewrite nval_firstn by auto. rewrite nval_skipn by auto. rewrite !Z2Nat.id by lia. reflexivity.
+Qed.
+
+(* NetlistDriver.emit_value: the AssignmentList built for the chunk [cs, ce) computes exactly the bits [cs, ce) of
+   "all assignments of the driver applied in order to the whole signal" — clipping of windows that overhang the chunk,
+   dropping of windows outside it, and folding of an unconditional full-chunk assignment into the default (allowed
+   only while nothing has been kept) all preserve the value *)
+Theorem emit_value_correct cv rho cs ce sig l : 0 <= cs <= ce -> ce <= nlen sig -> cv CTrue = true -> starts_ok l ->
+  let '(d, kept) := emit_value cs ce sig l in
+  nir_run cv rho (ce - cs) kept (nval rho d) = bits_at (nir_run cv rho (nlen sig) l (nval rho sig)) cs (ce - cs)
+  /\ nlen d = ce - cs.
+Proof.
+  intros Hc HW Hcv Hst. unfold emit_value. destruct (nslice_spec rho sig cs ce Hc HW) as [Hn Hv].
+  apply (emit_value_loop_correct cv rho cs ce (nlen sig) Hc HW Hcv l _ [] (nval rho sig) Hst Hn).
+  cbn [nir_run fold_left]. exact Hv.
+Qed.
+
+(* the whole path for one driver chunk: emit_value, then emit_assignment_list: the RTLIL process computes the
+   chunk's bits of "last active assignment wins" on the whole signal *)
+Theorem chunk_process_correct rho tab cs ce sig l d kept proc : wf_tab tab ->
+  0 <= cs <= ce -> ce <= nlen sig -> starts_ok l ->
+  emit_value cs ce sig l = (d, kept) -> emit_assignment_list tab d kept = Some proc ->
+  exec_ptrees rho (ce - cs) proc 0 =
+  bits_at (nir_run (cval rho tab) rho (nlen sig) l (nval rho sig)) cs (ce - cs).
+Proof.
+  intros Hwf Hc HW Hst Ev Ea.
+  pose proof (emit_value_correct (cval rho tab) rho cs ce sig l Hc HW eq_refl Hst) as H. rewrite Ev in H.
+  destruct H as [H Hn]. rewrite <- H.
+  rewrite (emit_assignment_list_sound rho tab (ce - cs) (cval rho tab) eq_refl
+             (fun k mc b E => cval_unfold rho tab k mc b Hwf E) d kept proc Ea).
+  f_equal. rewrite Hn. pose proof (pow2_pos (ce - cs) ltac:(lia)) as Hp.
+  rewrite put_full by lia. apply mask_small. rewrite <- Hn. apply nval_range.
+Qed.
